@@ -448,9 +448,7 @@ var arityArgs = []string{"t1", "t2", "t2a", "t3", "tc", "tca", "tms", "td", "tda
 	"vec2<f32>(0.5)", "vec3<f32>(0.5)", "vec4<f32>(0.5)", "0.5", "1", "1u", "1i", "vec2<i32>(1)", "vec3<i32>(1)", "vec2<u32>(1u)", "vec2<f32>(0.1, 0.2)",
 	"&at", "&ati", "&buf.arr", "buf.arr[0]", "true", "vec3<bool>(true)", "mat2x2<f32>(1.0, 0.0, 0.0, 1.0)", "&wg", "0"}
 
-func genBuiltinArity(t *rapid.T) string {
-	var b strings.Builder
-	b.WriteString(`@group(0) @binding(0) var t1: texture_1d<f32>;
+const arityPrelude = `@group(0) @binding(0) var t1: texture_1d<f32>;
 @group(0) @binding(1) var t2: texture_2d<f32>;
 @group(0) @binding(2) var t2a: texture_2d_array<f32>;
 @group(0) @binding(3) var t3: texture_3d<f32>;
@@ -472,7 +470,11 @@ struct Buf { n: u32, arr: array<u32> }
 @group(1) @binding(1) var<storage, read_write> at: atomic<u32>;
 @group(1) @binding(2) var<storage, read_write> ati: atomic<i32>;
 var<workgroup> wg: u32;
-`)
+`
+
+func genBuiltinArity(t *rapid.T) string {
+	var b strings.Builder
+	b.WriteString(arityPrelude)
 	stage := rapid.SampledFrom([]string{"@fragment fn main() -> @location(0) vec4<f32> {", "@compute @workgroup_size(1) fn main() {"}).Draw(t, "stage")
 	b.WriteString(stage + "\n")
 	for k := rapid.IntRange(1, 8).Draw(t, "ncalls"); k > 0; k-- {
@@ -804,4 +806,60 @@ func arrayProduct(src string) float64 {
 var knownSignatures = []signature{
 	// C10-1: per-element expansion of zero values / constructors of (nested) arrays
 	{"c10.array-expansion", func(src string) bool { return arrayProduct(src) > 50000 }},
+}
+
+// TestPropArityExhaustive enumerates (texture builtin, first-argument texture kind, argument count):
+// a finite space swept completely on every run (split over the shards).  The remaining arguments
+// come from a fixed rotation of plausible values, so well-formed calls occur as well.
+func TestPropArityExhaustive(t *testing.T) {
+	ev.Rule("exhaustive: every texture builtin x every texture kind as first argument x 0..8 arguments (other arguments from a fixed rotation), compute and fragment stage; same crash / hang / memory oracle")
+	shard, shards := ev.ShardIndex(), 1
+	if n, err := strconv.Atoi(os.Getenv("VERIF_SHARDS")); err == nil && n > 0 {
+		shards = n
+	}
+	rot := []string{"smp", "vec2<f32>(0.5)", "1", "vec2<f32>(0.1, 0.2)", "vec2<f32>(0.3)", "vec2<i32>(1)", "0.5", "1u"}
+	rotC := []string{"smpc", "vec3<f32>(0.5)", "1i", "0.5", "vec3<f32>(0.1)", "vec3<f32>(0.2)", "vec2<i32>(1)", "0"}
+	idx := 0
+	for _, fn := range arityBuiltins {
+		if !strings.HasPrefix(fn, "texture") {
+			continue
+		}
+		for _, tex := range arityArgs[:15] {
+			for n := 0; n <= 8; n++ {
+				for variant := 0; variant < 2; variant++ {
+					idx++
+					if idx%shards != shard {
+						continue
+					}
+					args := []string{}
+					pool := rot
+					if variant == 1 {
+						pool = rotC
+					}
+					for i := 0; i < n; i++ {
+						if i == 0 {
+							args = append(args, tex)
+						} else {
+							args = append(args, pool[(i-1)%len(pool)])
+						}
+					}
+					src := arityPrelude + "@compute @workgroup_size(1) fn main() {\n  _ = " + fn + "(" + strings.Join(args, ", ") + ");\n}\n"
+					if fn == "textureStore" {
+						src = arityPrelude + "@compute @workgroup_size(1) fn main() {\n  " + fn + "(" + strings.Join(args, ", ") + ");\n}\n"
+					}
+					in := &Input{API: "all", Opts: "default", Kind: "arity-exhaustive", Src: src}
+					ok, msg, rep := verdict(in)
+					ev.Eval(ev.HashS(in.Src, in.API, in.Opts), rep.Decls >= 1)
+					ev.Class("family:arity-exhaustive")
+					if rep.Stage != "" {
+						ev.Class("arity-stage:" + rep.Stage)
+					}
+					if !ok {
+						ev.Fail("input", in, msg)
+						t.Fatalf("%s\n--- input ---\n%s", msg, src[len(arityPrelude):])
+					}
+				}
+			}
+		}
+	}
 }
